@@ -4,7 +4,7 @@
 From Coq Require Import List NArith ZArith Bool.
 Import ListNotations.
 From Emu.Common Require Import Bytes Str.
-From Emu.GCS Require Import Model CondsSpec Check.
+From Emu.GCS Require Import Model Wire CondsSpec Check.
 Local Open Scope Z_scope.
 
 (* ---- C04 ---- *)
@@ -138,7 +138,7 @@ Fixpoint c04_run (s : state) (i : N) (rs : list req) (obs : list resp) : list (N
   | _, _ => []
   end.
 
-Definition oracle_case_c04 (c : list req * list resp) : list (N * N) := c04_run init_state 0%N (fst c) (snd c).
+Definition oracle_case_c04 (c : list req * list resp) : list (N * N) := c04_run init_state 0%N (map sanitize (fst c)) (snd c).
 
 (* generic driver: (case index, step, code) flattened as (case index * 1000 + step, code) *)
 Fixpoint oracle_all_from (f : list req * list resp -> list (N * N)) (i : N) (cs : list (list req * list resp)) : list (N * N) :=
@@ -152,7 +152,7 @@ Definition oracle_all_c04 := oracle_all_from oracle_case_c04 0%N.
 From Emu.GCS Require Import FileList.
 
 Definition check_case_fs (c : list req * list resp) : option N :=
-  first_diff 0 (run_fs_canon (fst c)) (snd c).
+  first_diff 0 (run_fs_canon (map sanitize (fst c))) (snd c).
 Fixpoint check_all_fs_from (i : N) (cs : list (list req * list resp)) : list (N * N) :=
   match cs with
   | [] => []
@@ -272,5 +272,5 @@ Fixpoint c11_run (fuel : nat) (s : state) (i : N) (rs : list req) (obs : list re
   end.
 
 Definition oracle_case_c11 (c : list req * list resp) : list (N * N) :=
-  c11_run (S (length (fst c))) init_state 0%N (fst c) (snd c).
+  c11_run (S (length (fst c))) init_state 0%N (map sanitize (fst c)) (snd c).
 Definition oracle_all_c11 := oracle_all_from oracle_case_c11 0%N.
